@@ -422,7 +422,10 @@ def run_phybo(case):
             taxa = [name_id(x) for x in phy.taxa]
             observed = {cog: list(phy.paps[cog]) for cog in phy.cogs}     # as built from the wordlist
             calls = case.get("calls") or [(m, case[m]) for m in ("weighted", "restriction", "topdown")]
+            seen_topdown = False
             for mode, cfg in calls:
+                exact = mode != "topdown" and not seen_topdown
+                seen_topdown = seen_topdown or mode == "topdown"
                 before = {cog: list(phy.paps[cog]) for cog in phy.cogs}
                 if mode == "weighted":
                     phy.get_GLS(mode="weighted", ratio=(cfg["g"], cfg["l"]), gpl=cfg["gpl"], push_gains=cfg["push"],
@@ -443,7 +446,8 @@ def run_phybo(case):
                     if noo != sum(e for _, e in gls):
                         raise AssertionError("number of origins is not the number of gains")
                     items.append({"mode": mode, "cfg": dict(cfg), "cog": str(cog), "paps": before[cog],
-                                  "obs": observed[cog], "out": [(name_id(a), int(b)) for a, b in gls]})
+                                  "obs": observed[cog], "exact": exact,
+                                  "out": [(name_id(a), int(b)) for a, b in gls]})
         return {"tree": tree_read, "taxa": taxa, "items": items, "out": [x for it in items for x in it["out"]]}
     finally:
         logging.disable(logging.NOTSET)
@@ -471,6 +475,9 @@ def gen_phybo_history_case(rng):
     a["md"], b["md"] = -1, 0
     pos = rng.randrange(len(calls) + 1)
     calls[pos:pos] = [(mode, a), (mode, b)]
+    # top-down calls last: lowestCommonAncestor on subtrees leaves marks on the shared tree object, after
+    # which the next whole-tree call may stop too high (still a correct scenario, but not the model's)
+    calls.sort(key=lambda mc: mc[0] == "topdown")
     c["calls"] = calls
     return c
 
@@ -487,7 +494,7 @@ def render_phybo(case, res):
             m = "(GTopDown %s)" % L.z(cfg["r"])
         items.append(L.record("phybo_item", [
             m, L.z(cfg.get("gpl", 1)), L.b(cfg.get("push", True)), L.z(cfg["md"]), L.zlist(it["paps"]),
-            L.zlist(it["obs"]), L.b(it["mode"] != "topdown"), story_lit(it["out"])]))
+            L.zlist(it["obs"]), L.b(it["exact"]), story_lit(it["out"])]))
     return L.record("phybo_case", [tree_lit(res["tree"]), L.zlist(res["taxa"]), L.lst(items)])
 
 
